@@ -119,6 +119,143 @@ MetricsClauses(post, o, q) ==
                         /\ m.links = SumW(OutT(o))>>
      >>)
 
+(***************************************************************************)
+(* Relational clauses over the implementation's own answers                *)
+(*   q.pres : reported resolution of every reported page                   *)
+(*   q.wp   : reported pages of every webentity (full prefix list, any     *)
+(*            order)                                                       *)
+(***************************************************************************)
+RPres(q, l) ==
+  LET S == { j \in 1..Len(q.pres) : q.pres[j].l = l } IN
+  IF S = {} THEN 0 ELSE q.pres[CHOOSE j \in S : TRUE].we
+WpRow(q, w) == q.wp[CHOOSE j \in 1..Len(q.wp) : q.wp[j].id = w]
+LSet(rows) == { rows[j].l : j \in 1..Len(rows) }
+Members(q, w) == LSet(WpRow(q, w).pages)
+
+(* C05 *)
+RECURSIVE ConcatWeDfs(_, _, _)
+ConcatWeDfs(tr, ps, i) ==      \* block-level answer: pages met by webentity_dfs_iter, prefix by prefix
+  IF i > Len(ps) THEN <<>>
+  ELSE LET n == LruNode(tr, ps[i])
+           d == IF n = 0 THEN <<>> ELSE WeDfsFrom(tr, n, ps[i], Unlimited)
+           pg == SelectSeq(d, LAMBDA e : tr[e[1]].pg)
+       IN [j \in 1..Len(pg) |-> pg[j][2]] \o ConcatWeDfs(tr, ps, i + 1)
+
+WePagesClauses(post, o, q) ==
+  FailNamesQ(<<
+    <<"C05.nofail", \A j \in 1..Len(q.wp) : q.wp[j].exc = "">>,
+    <<"C05.iff",    \A j \in 1..Len(q.wp) :
+                       LSet(q.wp[j].pages) = { p \in PSet(o) : RPres(q, p) = q.wp[j].id }>>,
+    <<"C05.nodup",  \A j \in 1..Len(q.wp) : Len(q.wp[j].pages) = Cardinality(LSet(q.wp[j].pages))>>,
+    <<"C05.marks",  \A j \in 1..Len(q.wp) : \A i \in 1..Len(q.wp[j].pages) :
+                       q.wp[j].pages[i].cr = (q.wp[j].pages[i].l \in CSet(o))>>,
+    <<"C05.crawledonly", \A j \in 1..Len(q.wp) :
+                       /\ LSet(q.wp[j].cpages) = LSet(q.wp[j].pages) \cap CSet(o)
+                       /\ Len(q.wp[j].cpages) = Cardinality(LSet(q.wp[j].cpages))
+                       /\ \A i \in 1..Len(q.wp[j].cpages) : q.wp[j].cpages[i].cr>>,
+    <<"C05.partition", \A p \in PSet(o) : RPres(q, p) # 0 =>
+                       Cardinality({ j \in 1..Len(q.wp) : p \in LSet(q.wp[j].pages) }) = 1>>,
+    <<"C05.resolution", \A p \in PSet(o) : RPres(q, p) = Resolve(AbsPre(o, post), p)>>,
+    <<"bind.wepages", \A j \in 1..Len(q.wp) :
+                       [i \in 1..Len(q.wp[j].pages) |-> q.wp[j].pages[i].l] = ConcatWeDfs(post.trie, q.wp[j].ps, 1)>>
+  >>)
+
+(* C07 *)
+AggOut(T, q, auto) ==
+  LET prs == { <<RPres(q, e[1]), RPres(q, e[2])>> : e \in T }
+      ok  == { pr \in prs : pr[1] # 0 /\ pr[2] # 0 /\ (auto \/ pr[1] # pr[2]) }
+  IN { <<pr[1], pr[2], SumW({ e \in T : RPres(q, e[1]) = pr[1] /\ RPres(q, e[2]) = pr[2] })>> : pr \in ok }
+Transpose(G) == { <<e[2], e[1], e[3]>> : e \in G }
+NetSet(n) == { <<n.links[j].s, n.links[j].t, n.links[j].w>> : j \in 1..Len(n.links) }
+
+NetworkClauses(o, q) ==
+  LET T == OutT(o)
+      Want(n) == IF n.out THEN AggOut(T, q, n.auto) ELSE Transpose(AggOut(T, q, n.auto))
+      Net(slow, out, auto) == q.nets[CHOOSE j \in 1..Len(q.nets) :
+                                 q.nets[j].slow = slow /\ q.nets[j].out = out /\ q.nets[j].auto = auto]
+      Wes == { RPres(q, p) : p \in PSet(o) } \ {0}
+  IN FailNamesQ(<<
+    <<"C07.nofail", \A j \in 1..Len(q.nets) : q.nets[j].exc = "">>,
+    <<"C07.agg",    \A j \in 1..Len(q.nets) : ~q.nets[j].slow => NetSet(q.nets[j]) = Want(q.nets[j])>>,
+    <<"C07.slow",   \A j \in 1..Len(q.nets) : q.nets[j].slow => NetSet(q.nets[j]) = Want(q.nets[j])>>,
+    <<"C07.once",   \A j \in 1..Len(q.nets) :
+                       Len(q.nets[j].links) = Cardinality({ <<e[1], e[2]>> : e \in NetSet(q.nets[j]) })>>,
+    <<"C07.transpose", \A slow \in BOOLEAN, auto \in BOOLEAN :
+                       NetSet(Net(slow, FALSE, auto)) = Transpose(NetSet(Net(slow, TRUE, auto)))>>,
+    <<"C07.tallies", \A j \in 1..Len(q.nets) : ~q.nets[j].slow =>
+                       LET tal == q.nets[j].tal IN
+                       /\ { tal[i].id : i \in 1..Len(tal) } = Wes
+                       /\ Len(tal) = Cardinality(Wes)
+                       /\ \A i \in 1..Len(tal) :
+                            /\ tal[i].c = Cardinality({ p \in CSet(o) : RPres(q, p) = tal[i].id })
+                            /\ tal[i].u = Cardinality({ p \in PSet(o) \ CSet(o) : RPres(q, p) = tal[i].id })>>
+  >>)
+
+(* C08 *)
+WeLinkClauses(o, q) ==
+  LET T == OutT(o)
+      TripSet(r) == { <<r.links[j].s, r.links[j].t, r.links[j].w>> : j \in 1..Len(r.links) }
+      Want(r) ==
+        LET M == Members(q, r.id) IN
+        { e \in T : e[1] \in M /\ ((r.int /\ RPres(q, e[2]) = r.id) \/ (r.out /\ RPres(q, e[2]) # r.id)) }
+        \cup (IF r.inb THEN { e \in T : e[2] \in M /\ RPres(q, e[1]) # r.id } ELSE {})
+  IN FailNamesQ(<<
+    <<"C08.nofail",    (\A j \in 1..Len(q.pl) : q.pl[j].exc = "") /\ (\A j \in 1..Len(q.cit) : q.cit[j].exc = "")>>,
+    <<"C08.pagelinks", \A j \in 1..Len(q.pl) : TripSet(q.pl[j]) = Want(q.pl[j])>>,
+    <<"C08.once",      \A j \in 1..Len(q.pl) :
+                          Len(q.pl[j].links) = Cardinality({ <<e[1], e[2]>> : e \in TripSet(q.pl[j]) })>>,
+    <<"C08.cited",     \A j \in 1..Len(q.cit) :
+                          SeqSet(q.cit[j].cited) = { RPres(q, e[2]) : e \in { x \in T : x[1] \in Members(q, q.cit[j].id) } }>>,
+    <<"C08.citing",    \A j \in 1..Len(q.cit) :
+                          SeqSet(q.cit[j].citing) = { RPres(q, e[1]) : e \in { x \in T : x[2] \in Members(q, q.cit[j].id) } }>>,
+    <<"C08.degree",    \A j \in 1..Len(q.cit) :
+                          /\ q.cit[j].od = Cardinality(SeqSet(q.cit[j].cited))
+                          /\ q.cit[j].idg = Cardinality(SeqSet(q.cit[j].citing))
+                          /\ q.cit[j].dg = q.cit[j].od + q.cit[j].idg>>,
+    <<"C08.membership", \A j \in 1..Len(q.wp) :
+                          LSet(q.wp[j].pages) = { p \in PSet(o) : RPres(q, p) = q.wp[j].id }>>
+  >>)
+
+(* C13 *)
+HierarchyClauses(o, q) ==
+  LET A == [we |-> WSet(o)] IN
+  FailNamesQ(<<
+    <<"C13.nofail",   \A j \in 1..Len(q.hier) : q.hier[j].exc = "">>,
+    <<"C13.parents",  \A j \in 1..Len(q.hier) : SeqSet(q.hier[j].parents) = Parents(A, q.hier[j].id)>>,
+    <<"C13.children", \A j \in 1..Len(q.hier) : SeqSet(q.hier[j].children) = Children(A, q.hier[j].id)>>,
+    <<"C13.once",     \A j \in 1..Len(q.hier) :
+                         /\ Len(q.hier[j].parents) = Cardinality(SeqSet(q.hier[j].parents))
+                         /\ Len(q.hier[j].children) = Cardinality(SeqSet(q.hier[j].children))>>
+  >>)
+
+(* C20 *)
+TopClauses(o, q) ==
+  LET T == OutT(o)
+      True(p) == Cardinality({ e \in T : e[2] = p })
+      Eff(p)  == IF True(p) = 0 THEN 1 ELSE True(p)      \* known finding F9: 0 reported as 1
+      OwnPrefix(r, p) ==       \* the prefix of the webentity under which the traversal meets p
+        LET S == { i \in 1..Len(WpRow(q, r.id).ps) : IsPrefixOf(WpRow(q, r.id).ps[i], p) }
+            m == CHOOSE i \in S : \A k \in S : Len(WpRow(q, r.id).ps[k]) <= Len(WpRow(q, r.id).ps[i])
+        IN WpRow(q, r.id).ps[m]
+      Cands(r) == { p \in Members(q, r.id) : r.depth = -1 \/ Len(p) - Len(OwnPrefix(r, p)) <= r.depth }
+      Listed(r) == LSet(r.top)
+      Subset(r) == Listed(r) \subseteq Cands(r) /\ Len(r.top) = Cardinality(Listed(r))
+      Size(r)   == Len(r.top) = Min(r.k, Cardinality(Cands(r)))
+      Order(r)  == \A j \in 1..(Len(r.top) - 1) : r.top[j].n >= r.top[j + 1].n
+      Deg(r, N(_)) == \A j \in 1..Len(r.top) : r.top[j].n = N(r.top[j].l)
+      TopK(r, N(_)) == \A p \in Cands(r) \ Listed(r) : \A j \in 1..Len(r.top) : N(p) <= r.top[j].n
+      AllTrue == \A j \in 1..Len(q.top) : Deg(q.top[j], True) /\ TopK(q.top[j], True)
+      AllEff  == \A j \in 1..Len(q.top) : Deg(q.top[j], Eff) /\ TopK(q.top[j], Eff)
+  IN FailNamesQ(<<
+    <<"C20.nofail", \A j \in 1..Len(q.top) : q.top[j].exc = "">>,
+    <<"C20.subset", \A j \in 1..Len(q.top) : Subset(q.top[j])>>,
+    <<"C20.size",   \A j \in 1..Len(q.top) : Size(q.top[j])>>,
+    <<"C20.order",  \A j \in 1..Len(q.top) : Order(q.top[j])>>,
+    <<"C20.indegree", \A j \in 1..Len(q.top) : Deg(q.top[j], Eff)>>,
+    <<"C20.topk",   \A j \in 1..Len(q.top) : TopK(q.top[j], Eff)>>,
+    <<"C20.zero_as_one", AllEff => AllTrue>>
+  >>)
+
 QueryClauses(post, rm, d, S) ==
   LET q == S.q  o == S.obs IN
      (IF Has(q, "lookup")  THEN LookupClauses(post, q) ELSE <<>>)
@@ -126,4 +263,9 @@ QueryClauses(post, rm, d, S) ==
   \o (IF Has(q, "res")     THEN ResolveClauses(post, o, q) ELSE <<>>)
   \o (IF Has(q, "pot")     THEN PotentialClauses(post, rm, d, o, q) ELSE <<>>)
   \o (IF Has(q, "metrics") THEN MetricsClauses(post, o, q) ELSE <<>>)
+  \o (IF Has(q, "wp") /\ Has(q, "pres") /\ ~Has(q, "pl") THEN WePagesClauses(post, o, q) ELSE <<>>)
+  \o (IF Has(q, "nets")    THEN NetworkClauses(o, q) ELSE <<>>)
+  \o (IF Has(q, "pl")      THEN WeLinkClauses(o, q) ELSE <<>>)
+  \o (IF Has(q, "hier")    THEN HierarchyClauses(o, q) ELSE <<>>)
+  \o (IF Has(q, "top")     THEN TopClauses(o, q) ELSE <<>>)
 =============================================================================
